@@ -42,7 +42,7 @@ static Verdict run_executor(const Case &c, const std::string &vtodo_in, long exp
 	xr::XRun r = xr::run_echsx(g_echsx, g_shim, wd, v, {}, 20.0, scale);
 	if (g_trace) fprintf(stderr, "--- request\n%s--- status %d wall %.3f hung %d alarms %zu\n--- journal\n%s--- log\n%s\n", v.c_str(), r.status, r.wall, r.hung, r.alarms.size(), r.journal.c_str(), r.log.c_str());
 	if (!r.started) return done(Verdict::inconclusive("cannot start echsx"));
-	if (r.hung) return done(Verdict::fail(tag + "echsx did not finish within 20 s"));
+	if (r.hung) { unlink((wd + "/runs.txt").c_str()); r = xr::run_echsx(g_echsx, g_shim, wd, v, {}, 200.0, scale); if (r.hung) return done(Verdict::fail(tag + "echsx did not finish within 200 s (20 s at first)")); }   // a busy machine is no verdict
 	std::string runs = slurp(wd + "/runs.txt"), sg = xr::jfield(r.journal, "X-SIGNAL"), xs = xr::jfield(r.journal, "X-EXIT-STATUS");
 	if (expect_hi <= 0) {   // overdue: refused
 		if (!runs.empty()) return done(Verdict::fail(tag + "the request was already overdue and the job was run all the same"));
